@@ -943,6 +943,23 @@ func TestBinFixedTriangle(t *testing.T) {
 		}
 		items = append(items, it)
 	}
+	// addMin: the same actual length with WithMinimalLength = length and length-1 (the loops of
+	// FixedLengthSum start at the minimal length), and length+1 (must be unsatisfiable).
+	var below []BinBatch
+	addMin := func(s *binSpec, max, l int) {
+		for _, m := range []int{l, l - 1, l + 1} {
+			if m < 1 || m > max {
+				continue
+			}
+			msg := p.bytes(max)
+			it := BinItem{Hash: s.name, Msg: msg, Chunks: []int{max}, Mode: "fixed", Len: l, MinLen: m}
+			if m > l {
+				below = append(below, BinBatch{Field: "bn254", Engine: "test", Items: []BinItem{it}})
+			} else {
+				items = append(items, it)
+			}
+		}
+	}
 	sha := specOf("sha256")
 	if ev.Tier() == "quick" {
 		for _, max := range []int{0, 1, 65} {
@@ -953,9 +970,15 @@ func TestBinFixedTriangle(t *testing.T) {
 		for _, l := range sha.boundaryLengths(130) {
 			add(sha, 130, l)
 		}
+		for _, l := range []int{55, 56, 64, 119} {
+			addMin(sha, 130, l)
+		}
 		v := specOf(sha3Variants[int(ev.Seed())%len(sha3Variants)])
 		for _, l := range v.boundaryLengths(v.block + 2) {
 			add(v, v.block+2, l)
+		}
+		for _, l := range []int{v.block - 1, v.block} {
+			addMin(v, v.block+2, l)
 		}
 		add(v, 1, 0)
 		add(v, 1, 1)
@@ -981,11 +1004,18 @@ func TestBinFixedTriangle(t *testing.T) {
 		}
 		for _, l := range v.boundaryLengths(2*v.block + 2) {
 			add(v, 2*v.block+2, l)
+			addMin(v, 2*v.block+2, l)
+		}
+		for _, l := range sha.boundaryLengths(194) {
+			if l%8 == sh%8 {
+				addMin(sha, 194, l)
+			}
 		}
 		rec.Extra("fixed-triangle", "sha256: declared maxima 0..3 and within 3 of 55/64/119/128 x every actual length (split over shards); sha3 variants at rate-2 / rate / rate+2 x every actual length")
 	}
 	items = thin(items)
 	runBatches(t, rec, packBatches("bn254", "test", items, 36), workers())
+	runBatches(t, rec, thin(below), workers())
 }
 
 // TestBinFixedEmptyProbe documents, without asserting, what FixedLengthSum does when nothing was
